@@ -30,7 +30,7 @@ pub fn all_tokens_dropped_exactly_once() -> bool {
             }
             i += 1;
         }
-        ok
+        ok && ZMADE == ZDROPPED
     }
 }
 
@@ -45,7 +45,7 @@ pub fn no_token_dropped_twice() -> bool {
             }
             i += 1;
         }
-        ok
+        ok && ZDROPPED <= ZMADE
     }
 }
 
@@ -91,6 +91,26 @@ pub struct A16(pub u64);
 /// zero-size user type
 #[derive(Clone, Copy, Debug, PartialEq, Eq)]
 pub struct Zst;
+
+/// zero-size *droppable* user type: it cannot carry an id, so creations and destructions are
+/// counted globally (ZMADE / ZDROPPED)
+#[derive(Debug)]
+pub struct ZTok;
+pub static mut ZMADE: usize = 0;
+pub static mut ZDROPPED: usize = 0;
+impl Drop for ZTok {
+    fn drop(&mut self) {
+        unsafe { ZDROPPED += 1 }
+    }
+}
+impl Clone for ZTok {
+    fn clone(&self) -> Self {
+        unsafe { ZMADE += 1 }
+        ZTok
+    }
+}
+pub fn zmade() -> usize { unsafe { ZMADE } }
+pub fn zdropped() -> usize { unsafe { ZDROPPED } }
 
 #[derive(Clone, Copy)]
 pub struct TokSeed {
@@ -145,6 +165,12 @@ impl Val for Zst {
     type Seed = ();
     fn seed() {}
     fn make(_: ()) -> Zst { Zst }
+    fn is(&self, _: ()) -> bool { true }
+}
+impl Val for ZTok {
+    type Seed = ();
+    fn seed() {}
+    fn make(_: ()) -> ZTok { unsafe { ZMADE += 1 } ZTok }
     fn is(&self, _: ()) -> bool { true }
 }
 impl Val for A16 {
